@@ -2,9 +2,12 @@ package checks
 
 import (
 	"bytes"
+	"context"
+	"encoding/binary"
 	"fmt"
 	"math"
 	"math/rand"
+	"strings"
 	"time"
 
 	"github.com/bartossh/Computantis/src/accountant"
@@ -335,6 +338,98 @@ type c19Env struct {
 	recv   *ledger.Actor
 	sealer *ledger.Actor
 	ver    wallet.Helper
+	// the real vertices storage of a ledger (written through the verif hook, read through the public readers)
+	book   *accountant.AccountingBook
+	stored int
+	held   []c19Held
+	every  int
+	seq    int
+}
+
+// c19Held: what a storage read returned, next to a private copy taken at that moment.
+type c19Held struct {
+	label string
+	got   *accountant.Vertex
+	copy  accountant.Vertex
+	trx   *transaction.Transaction
+	tcopy transaction.Transaction
+}
+
+// storagePath stores the object under a unique key in the real vertices storage and reads it back through
+// ReadVertex and ReadTransactionByHash (their storage fall back). Values returned earlier are kept and compared with
+// the copy taken when they were returned: a later read must not change them.
+func (e *c19Env) storagePath(v *accountant.Vertex, label, nontrivKey string) {
+	r := e.w.R
+	e.stored++
+	u := *ledger.CloneVertex(v)
+	var uh, ut ledger.H
+	binary.LittleEndian.PutUint64(uh[:], uint64(e.stored))
+	uh[31] = 0xA5
+	binary.LittleEndian.PutUint64(ut[:], uint64(e.stored))
+	ut[31] = 0x5A
+	u.Hash, u.Transaction.Hash = uh, ut
+	verBefore := e.verifies(&u)
+	const name = "vertex->vertices storage->ReadVertex/ReadTransactionByHash"
+	var out accountant.Vertex
+	var trx transaction.Transaction
+	var rej string
+	_, _, panicked := guard(func() (accountant.Vertex, string) {
+		if err := e.book.VerifStoreVertex(&u); err != nil {
+			rej = "store: " + err.Error()
+			return accountant.Vertex{}, rej
+		}
+		var err error
+		if out, err = e.book.ReadVertex(context.Background(), uh); err != nil {
+			rej = "ReadVertex: " + err.Error()
+			return accountant.Vertex{}, rej
+		}
+		if trx, err = e.book.ReadTransactionByHash(context.Background(), ut); err != nil {
+			rej = "ReadTransactionByHash: " + err.Error()
+		}
+		return out, rej
+	})
+	r.Eval(1)
+	r.Count("c19_stored_objects", 1)
+	switch {
+	case panicked != nil:
+		r.Violate("C19", "panic/"+name, fmt.Sprintf("%s panicked on object [%s]: %v", name, label, panicked), nil)
+		return
+	case rej != "":
+		if strings.HasPrefix(rej, "store: ") {
+			r.Count("c19_rejected_by_converter", 1)
+			r.Nontriv("rejected/" + name + "/" + nontrivKey)
+			return
+		}
+		r.Violate("C19", "stored-object-not-readable/"+name, fmt.Sprintf("object [%s] was stored but cannot be read back: %s", label, rej), nil)
+		return
+	}
+	if d := vrxDiff(&u, &out); len(d) > 0 {
+		r.Violate("C19", "silently-changed/"+name+"/"+fieldOnly(d[0]), fmt.Sprintf("%s changed %v of object [%s]", name, d, label), nil)
+	} else if d := trxDiff(&u.Transaction, &trx); len(d) > 0 {
+		r.Violate("C19", "silently-changed/"+name+"/"+fieldOnly(d[0]), fmt.Sprintf("ReadTransactionByHash returned a transaction that differs in %v for object [%s]", d, label), nil)
+	} else if verBefore != e.verifies(&out) {
+		r.Violate("C19", "verify-outcome-changed/"+name, fmt.Sprintf("object [%s] verified=%v before and %v after %s", label, verBefore, !verBefore, name), nil)
+	}
+	r.Nontriv(name + "/" + nontrivKey)
+	// values handed out earlier stay what they were
+	for i := range e.held {
+		h := &e.held[i]
+		if d := vrxDiff(&h.copy, h.got); len(d) > 0 {
+			r.Violate("C19", "returned-value-changed-by-a-later-read/"+fieldOnly(d[0]), fmt.Sprintf("the vertex returned by ReadVertex for object [%s] changed in %v after reading object [%s]", h.label, d, label), nil)
+			h.copy = *ledger.CloneVertex(h.got)
+		}
+		if d := trxDiff(&h.tcopy, h.trx); len(d) > 0 {
+			r.Violate("C19", "returned-value-changed-by-a-later-read/"+fieldOnly(d[0]), fmt.Sprintf("the transaction returned by ReadTransactionByHash for object [%s] changed in %v after reading object [%s]", h.label, d, label), nil)
+			h.tcopy = ledger.CloneVertex(&accountant.Vertex{Transaction: *h.trx}).Transaction
+		}
+	}
+	hd := c19Held{label: label, got: &out, copy: *ledger.CloneVertex(&out), trx: &trx, tcopy: ledger.CloneVertex(&accountant.Vertex{Transaction: trx}).Transaction}
+	if len(e.held) < 48 {
+		e.held = append(e.held, hd)
+	} else {
+		e.held[e.stored%48] = hd
+	}
+	r.Count("c19_held_values_rechecked", len(e.held))
 }
 
 func (e *c19Env) base() accountant.Vertex {
@@ -387,6 +482,12 @@ func (e *c19Env) check(v *accountant.Vertex, label string, nontrivKey string) {
 			r.Nontriv(p.name + "/" + nontrivKey)
 		}
 	}
+	if e.book != nil {
+		e.seq++
+		if e.every <= 1 || e.seq%e.every == 0 {
+			e.storagePath(v, label, nontrivKey)
+		}
+	}
 }
 
 func fieldOnly(s string) string {
@@ -402,6 +503,18 @@ func c19Worker(w *core.WorkerCtx) {
 	rng := core.Rand(w.Seed, "C19", w.Batch)
 	e := &c19Env{w: w, issuer: ledger.NewActor("I"), recv: ledger.NewActor("R"), sealer: ledger.NewActor("S"), ver: wallet.NewVerifier()}
 	r := w.R
+	bctx, bcancel := context.WithCancel(context.Background())
+	defer bcancel()
+	if book, err := accountant.NewAccountingBook(bctx, accountant.Config{Truncate: 1 << 50}, e.ver, &e.sealer.W, ledger.NoLog{}); err == nil {
+		e.book = book
+		defer book.VerifClose()
+	} else {
+		r.Inconc("cannot build a ledger for the storage path: " + err.Error())
+	}
+	e.every = 1
+	if w.Batch > 1 {
+		e.every = 4
+	}
 	base := e.base()
 	if !e.verifies(&base) {
 		r.Inconc("the base vertex does not verify")
@@ -492,7 +605,7 @@ func init() {
 	core.Register(&core.Check{
 		Spec: core.Spec{
 			Prop:        "C19",
-			Rule:        "Objects are valid vertices whose fields are replaced by boundary values: lengths 0,1,31,32,33,255,256,65535,65536 (ASCII, non-UTF-8, NUL, random) and nil for every string/bytes field; integers 0,1,2^7+-1,2^8+-1,2^16+-1,2^32+-1,2^63+-1,2^64-1,10^18+-1 for weight and both amount parts; timestamps epoch, +-1ns, 2^32 s, 2^34 s, negative, year 1, int64 nanosecond limits, zero time; hash patterns. Batch 0: one field at a time, every value (exhaustive for that list), raw and re-signed with the real keys; batch 1 (thorough: 1-5): all pairs of fields with a reduced value set; other batches: PRNG fill. Each object goes through 7 paths (vertex<->protobuf struct, <->protobuf wire bytes, transaction<->protobuf through transformers, vertex/transaction/melange/balance msgpack encode(vmihailenco)->decode(shamaton) through the real pairs): every signed field must come back identical (timestamps by UnixNano, nil = empty) and the verify outcome must not change; an explicit converter error counts as rejected, a panic or a silent change is a violation. Non-trivial = every (path, object) with a non-default field; distinct by (path, field, value).",
+			Rule:        "Objects are valid vertices whose fields are replaced by boundary values: lengths 0,1,31,32,33,255,256,65535,65536 (ASCII, non-UTF-8, NUL, random) and nil for every string/bytes field; integers 0,1,2^7+-1,2^8+-1,2^16+-1,2^32+-1,2^63+-1,2^64-1,10^18+-1 for weight and both amount parts; timestamps epoch, +-1ns, 2^32 s, 2^34 s, negative, year 1, int64 nanosecond limits, zero time; hash patterns. Batch 0: one field at a time, every value (exhaustive for that list), raw and re-signed with the real keys; batch 1 (thorough: 1-5): all pairs of fields with a reduced value set; other batches: PRNG fill. Each object goes through 7 paths (vertex<->protobuf struct, <->protobuf wire bytes, transaction<->protobuf through transformers, vertex/transaction/melange/balance msgpack encode(vmihailenco)->decode(shamaton) through the real pairs): every signed field must come back identical (timestamps by UnixNano, nil = empty) and the verify outcome must not change; an explicit converter error counts as rejected, a panic or a silent change is a violation. An eighth path is the real vertices storage of a ledger: the object is written under a unique key through the storage hook and read back through ReadVertex and ReadTransactionByHash (storage fall back); the last 48 returned values are kept and compared with copies taken when they were returned after every later read. Non-trivial = every (path, object) with a non-default field; distinct by (path, field, value).",
 			Assumptions: []string{"equality of timestamps is equality of UnixNano, the quantity that is signed", "an explicit error from a converter (protobuf refusing non-UTF-8 text, the transformer refusing empty mandatory fields) is a rejection, not a silent change"},
 			Exhaustive:  false,
 			MinEvals:    5000, MinNontriv: 500,
